@@ -57,6 +57,7 @@ structure Conn where
   worker : Nat := 0
   /-- number of handler invocations / completions on this connection -/
   begun : Nat := 0
+  /-- handler completions whose response could still be written (see `hEnd`) -/
   served : Nat := 0
   /-- history: the connection was first polled only after the shutdown signal (request never read) -/
   cancelled : Bool := false
@@ -298,7 +299,11 @@ def step (cfg : Cfg) (s : State) : Event → Option State
     else none
   | .hEnd c r =>
     if (s.c c).phase = .inflight ∧ r + 1 = (s.c c).begun ∧ workerAlive s c = true then
-      some (s.setC c { s.c c with phase := .idle, served := (s.c c).served + 1 })
+      -- every connection's socket is registered with the I/O driver of the ACCEPTOR's runtime
+      -- (`incoming.accept()` runs there); once `Acceptor::run` has returned that runtime is dropped and
+      -- the response can no longer be written
+      some (s.setC c { s.c c with phase := .idle,
+                                  served := (s.c c).served + (if s.acc.phase = .exited then 0 else 1) })
     else none
   | .cEnd c ok =>
     let p := (s.c c).phase
